@@ -369,10 +369,10 @@ func (r *run) applyContract(fr *frame, st *State, ct *Contract, sig *types.Signa
 	env.st = st
 	env.old = pre
 	for _, en := range ct.Ensures {
-		r.assume(reach, r.specBool(env, en.Expr, en.Text))
+		r.assumeClause(env, reach, en.Expr, en.Text)
 	}
 	for _, en := range ct.Defines {
-		r.assume(reach, r.specBool(env, en.Expr, en.Text))
+		r.assumeClause(env, reach, en.Expr, en.Text)
 		r.assumed["determinism (result named by a spec function): "+ct.Key+": "+en.Text] = true
 	}
 	for _, u := range ct.Uses {
